@@ -3,6 +3,7 @@ import numpy as np
 
 from mc.ref import pen as RP
 
+from mc import alphabet as A
 from mc import registry as R
 from mc import traj
 from mc.drivers import c01, c03
@@ -53,7 +54,11 @@ def base_comps(task, tier):
     for ix, (xid, X) in enumerate(R.solve_designs(tier)):
         if ix % task["nparts"] != task["part"]:
             continue
-        for tname, y in R.targets(kind, X, tier)[:1 if tier == "quick" else 2]:
+        tgs = R.targets(kind, X, tier)[:1 if tier == "quick" else 2]
+        if kind == "multi" and xid == "tall6x3":          # a task whose intercept gradient vanishes at the start next to shifted ones
+            g = A.reg_targets(X)["generic"]
+            tgs = tgs + [("centred+shifted", np.column_stack([g - g.mean(), g + 5.0, g + 2.0]))]
+        for tname, y in tgs:
             for dspec in R.datafit_specs(dn, X, tier)[:2]:
                 if pk.startswith("WeightedGroupL2") and (dspec is None or "grp_ptr" not in dspec):
                     continue
@@ -62,7 +67,10 @@ def base_comps(task, tier):
                 K = R.KNOBS[s]
                 fi_default = K.get("fit_intercept", (False,))[0]
                 multitask = y.shape[1] if kind == "multi" else 0
-                for ps in R.penalty_specs(pk, dspec, Xeff, y, fi_default, tier):
+                pss = R.penalty_specs(pk, dspec, Xeff, y, fi_default, tier)
+                if xid == "tall6x3":                          # a strength above the critical one: the run stops at once on its tolerance
+                    pss = pss + R.penalty_specs(pk, dspec, Xeff, y, fi_default, tier, fracs=(3.0,))[:1]
+                for ps in pss:
                     variants = [{}, dict(tol=K["tol"][1][1])]
                     if "fit_intercept" in K:
                         variants.append(dict(fit_intercept=K["fit_intercept"][1][0]))
